@@ -118,7 +118,9 @@ Record n_case := mkNCase {
   nc_rounds : list n_round;
   nc_honest_obs : list (nat * list nat);  (* every (honest node, performable rows) observation it produced *)
   nc_accepts : list (nat * list nat);     (* (honest node, report) for which ShouldAccept returned true *)
-  nc_transmit : list (nat * list (list nat)) (* snapshots: (honest node, all reports it was willing to transmit at that instant) *)
+  nc_transmit : list (nat * list (list nat)); (* snapshots: (honest node, all reports it was willing to transmit at that instant) *)
+  nc_live : list (N * (nat * nat))        (* liveness obligations (work id, first round, last round): the work was eligible on
+                                             >= 2f+1 honest members of each of these rounds and in flight on none of them *)
 }.
 
 Definition rows_eqb (a b : list nat) : bool := list_eqb Nat.eqb a b.
@@ -166,7 +168,16 @@ Definition K09_single (k : n_case) : bool :=
 Definition K09_not_again (k : n_case) : bool :=
   forallb (fun rd => forallb (fun r => negb (memN (wid_of k r) (nr_inflight rd))) (nr_agreed rd)) (nc_rounds k).
 
-Definition K09 (k : n_case) : bool := K09_safety k &&& K09_not_again k &&& K09_single k.
+(* "reported within a bounded number of rounds": some round of the obligation's window agrees a result of that work *)
+Definition rounds_between {A} (l : list A) (from to : nat) : list A :=
+  firstn (S to - from) (skipn from l).
+Definition K09_live (k : n_case) : bool :=
+  forallb (fun ob => let '(w, (from, to)) := ob in
+             Nat.leb (length (nc_rounds k)) to ||   (* window not completely run: no obligation *)
+             existsb (fun rd => existsb (fun r => wid_of k r =? w) (nr_agreed rd)) (rounds_between (nc_rounds k) from to))
+          (nc_live k).
+
+Definition K09 (k : n_case) : bool := K09_safety k &&& K09_not_again k &&& K09_single k &&& K09_live k.
 
 Definition n_nontriv (k : n_case) : bool :=
   existsb (fun t => negb (Nat.eqb (length (snd t)) 0)) (nc_transmit k).
@@ -180,4 +191,4 @@ Definition K09_single_masked (k : n_case) : bool :=
              || forallb (fun r => forallb (fun r' => negb (wid_of k r =? wid_of k r') || Nat.eqb r r') b) a) (snd t)) (snd t))
           (nc_transmit k).
 Definition n_kf_rebatch (k : n_case) : bool :=
-  negb (K09 k) &&& K09_safety k &&& K09_not_again k &&& K09_single_masked k.
+  negb (K09 k) &&& K09_safety k &&& K09_not_again k &&& K09_live k &&& K09_single_masked k.
